@@ -17,6 +17,7 @@ from fst import FST
 
 PROPERTY = 'C02'
 THOROUGH_SCALE = 2.0
+THOROUGH_STRIDE = 2        # thorough tier = all quick cells + every 2th thorough-only cell (sized to run end-to-end; '--cells' reaches the others)
 
 QKINDS = ['none', 'loc', 'bloc', 'pars', 'own_src', 'own_src_F', 'nav', 'views', 'all']
 QK1 = ['none', 'bloc', 'pars', 'own_src', 'all']
